@@ -143,7 +143,7 @@ func build(needRace, needPlain bool) (*buildInfo, error) {
 		{Pattern: "./checkers", Opt: full},
 		{Pattern: "./checkers/internal/astwalk", Opt: full},
 		{Pattern: "./checkers/internal/lintutil", Opt: full},
-		{Pattern: "./checkers/analyzer", Opt: full},
+		{Pattern: "./checkers/analyzer", Opt: instr.Options{Yields: true, MapSeam: true, FSSeam: true, GenReset: true}},
 		{Pattern: "./cmd/go-critic", Opt: mainOpt},
 	}, goEnv())
 	if err != nil {
@@ -152,7 +152,6 @@ func build(needRace, needPlain bool) (*buildInfo, error) {
 	bi.Sites, bi.Counts = res.Sites, res.Counts
 	extra := map[string]string{
 		filepath.Join(repo, "cmd/go-critic/zz_gcsim_shim.go"):     filepath.Join(verif, "sim/shims/cli_shim.go.txt"),
-		filepath.Join(repo, "checkers/analyzer/zz_gcsim_shim.go"): filepath.Join(verif, "sim/shims/analyzer_shim.go.txt"),
 	}
 	ovl, err := res.WriteOverlay(dir, extra)
 	if err != nil {
